@@ -1,28 +1,43 @@
 ------------------------------- MODULE History -------------------------------
-(* C20.  A worker process serves a history of jobs.  Per-process state that survives a job:
-     rbcache  : compiled rulebooks, keyed by what the provider uses as key (the hardware view; a coarser key is the modelled hazard)
-     rules    : the cached rule objects themselves, which logic functions receive and may write to (hazard), protected by per-call copies
-   A job is [hw, vendor, mutates]: its result is a function of the rulebook it SHOULD see (the one of its hw, unmodified).
-   P-layer: observational determinism -- result(j | any history) = result(j | empty history); inputs and cached rulebooks unchanged.
-   Switches (TRUE = the protections of the code as it is): KeyByHw (provider cache keyed by hardware, not vendor), CopyAttrs (make_patch
-   deep-copies the rule attributes per (rule,key) before calling the logic function).                                                *)
+(* C20.  A worker process serves a history of jobs.  What survives a job is a set of CACHES of compiled objects, each a map from a key
+   to the object that was built the first time that key was asked for:
+     "rb"   the rulebook provider's cache (patching / ordering / deploy rulebooks of a hardware)
+     "re"   compiled row regexps (one compiler for rulebooks and ACLs)
+     "acl"  compiled ACLs (the generators' combined ACL text)
+     "ord"  the compiled ordering rulebook an Orderer is built around
+   Two things make a result depend on history, and the code protects each cache against both:
+     * a key that is too coarse -- two jobs that need different objects find each other's (Fine[c] = the key tells them apart):
+         rb keyed by the hardware view, not the vendor;  re keyed by row text AND flags, not by the text alone
+     * an operation that writes into the cached object instead of a private copy (Prot[c] = jobs work on copies):
+         rb: per-call copies of rule attributes handed to logic functions;   acl: merging the children of several matching rules builds
+         new lists;   ord: an Orderer extends a copy of the cached ordering (children of overlapping rules, inserted reference configs)
+   A job is [key (per cache: <<fine key, coarse key>>), reads (caches its result depends on), writes (caches its operations would write
+   into without the protection)].  Its result, per cache it reads, is the object it finds there and whether that object was written to.
+   P-layer: observational determinism -- result(j | any history) = result(j | empty history) -- and the frame condition on the caches.   *)
 EXTENDS Naturals, Sequences, FiniteSets
-CONSTANTS Jobs, KeyByHw, CopyAttrs
-VARIABLES rbcache, dirty, hist, obs
-vars == <<rbcache, dirty, hist, obs>>
-KeyOf(j) == IF KeyByHw THEN j.hw ELSE j.vendor
-Init == rbcache = [k \in {} |-> 0] /\ dirty = {} /\ hist = <<>> /\ obs = <<>>
-\* what the job computes with: the rulebook found under its key (compiled for the hw that first filled that key), and whether a previous
-\* job has written into those cached rule objects
-Seen(j) == IF KeyOf(j) \in DOMAIN rbcache THEN rbcache[KeyOf(j)] ELSE j.hw
-Result(j) == [rb |-> Seen(j), tainted |-> KeyOf(j) \in dirty]
-Fresh(j) == [rb |-> j.hw, tainted |-> FALSE]
+CONSTANTS Jobs,
+          FineRb, FineRe,               \* key fineness switches (TRUE = as in the code)
+          ProtRb, ProtAcl, ProtOrd      \* copy protections      (TRUE = as in the code)
+Caches == {"rb", "re", "acl", "ord"}
+Fine(c) == CASE c = "rb" -> FineRb [] c = "re" -> FineRe [] OTHER -> TRUE
+Prot(c) == CASE c = "rb" -> ProtRb [] c = "acl" -> ProtAcl [] c = "ord" -> ProtOrd [] OTHER -> TRUE
+VARIABLES cache,      \* cache[c]: function from used key to the fine key of the job that filled it (= which object sits there)
+          dirty,      \* dirty[c]: used keys whose object has been written to
+          hist, obs
+vars == <<cache, dirty, hist, obs>>
+KeyOf(j, c) == IF Fine(c) THEN j.key[c][1] ELSE j.key[c][2]
+Init == cache = [c \in Caches |-> [k \in {} |-> 0]] /\ dirty = [c \in Caches |-> {}] /\ hist = <<>> /\ obs = <<>>
+Found(j, c) == IF KeyOf(j, c) \in DOMAIN cache[c] THEN cache[c][KeyOf(j, c)] ELSE j.key[c][1]
+Result(j) == [c \in j.reads |-> [obj |-> Found(j, c), written |-> KeyOf(j, c) \in dirty[c]]]
+Fresh(j) == [c \in j.reads |-> [obj |-> j.key[c][1], written |-> FALSE]]
 Run(j) == /\ obs' = Append(obs, <<j, Result(j)>>)
           /\ hist' = Append(hist, j)
-          /\ rbcache' = IF KeyOf(j) \in DOMAIN rbcache THEN rbcache
-                        ELSE [k \in (DOMAIN rbcache) \cup {KeyOf(j)} |-> IF k = KeyOf(j) THEN j.hw ELSE rbcache[k]]
-          /\ dirty' = IF j.mutates /\ ~CopyAttrs THEN dirty \cup {KeyOf(j)} ELSE dirty
+          /\ cache' = [c \in Caches |->
+                         IF c \in j.reads \cup j.writes /\ KeyOf(j, c) \notin DOMAIN cache[c]
+                         THEN [k \in (DOMAIN cache[c]) \cup {KeyOf(j, c)} |-> IF k = KeyOf(j, c) THEN j.key[c][1] ELSE cache[c][k]]
+                         ELSE cache[c]]
+          /\ dirty' = [c \in Caches |-> IF c \in j.writes /\ ~Prot(c) THEN dirty[c] \cup {KeyOf(j, c)} ELSE dirty[c]]
 Next == \E j \in Jobs : Run(j)
 ObsDeterminism == \A i \in DOMAIN obs : obs[i][2] = Fresh(obs[i][1])
-CacheFrame == dirty = {}
+CacheFrame == \A c \in Caches : dirty[c] = {}
 =============================================================================
